@@ -57,7 +57,8 @@ func TestC06(t *testing.T) {
 	scfg.Crashes = 2
 	scfg.Faults = 1
 	scfg.ReadFaults = 1
-	scfg.Closes = 2
+	scfg.Closes = 3
+	scfg.WideBurstPct = 25                       // several entries queued behind the one being persisted (when a shutdown or a crash comes)
 	scfg.IKPool = []string{"", "", "", "", "k1"} // mostly distinct writes: more logs in flight at a time
 	scfg.Cancels = 2
 	scfg.HandoffCancels = 1
